@@ -15,6 +15,12 @@ Definition cell3 (nt nz i j k : nat) : list nat :=
   [idx3 nt nz (S i) (S j mod nt) k; idx3 nt nz i (S j mod nt) k; idx3 nt nz (S i) (S j mod nt) (S k);
    idx3 nt nz (S i) j k; idx3 nt nz i (S j mod nt) (S k); idx3 nt nz i j k; idx3 nt nz (S i) j (S k); idx3 nt nz i j (S k)].
 
+(* the whole connectivity, element (i, j[, k]) in the order i, j, k *)
+Definition conn2d (nr nt : nat) : list (list nat) :=
+  flat_map (fun i => map (fun j => cell2 nt i j) (seq 0 nt)) (seq 0 (nr - 1)).
+Definition conn3d (nr nt nz : nat) : list (list nat) :=
+  flat_map (fun i => flat_map (fun j => map (fun k => cell3 nt nz i j k) (seq 0 (nz - 1))) (seq 0 nt)) (seq 0 (nr - 1)).
+
 Open Scope Q_scope.
 
 (* ---- pressure on a closed polygon (the inner surface, counter-clockwise) ---------------- *)
